@@ -124,14 +124,15 @@ type StepObs struct {
 	Sends    int `json:"sends"`    // frames sent during the step
 	InFlight int `json:"inflight"` // size of the in-flight bag after the step
 	// deliver steps: the frame that was handed to the receiver
-	DelFrom   int    `json:"del_from,omitempty"`
-	DelTo     int    `json:"del_to,omitempty"`
-	DelOrigin int    `json:"del_origin,omitempty"`
-	DelSeq    uint64 `json:"del_seq,omitempty"`
-	DelPath   []int  `json:"del_path,omitempty"`
-	DelSeenBy []int  `json:"del_seen_by,omitempty"`
-	Applied   bool   `json:"applied"`
-	Now       int64  `json:"now"` // virtual seconds since the start of the case, after the step
+	DelFrom   int        `json:"del_from,omitempty"`
+	DelTo     int        `json:"del_to,omitempty"`
+	DelOrigin int        `json:"del_origin,omitempty"`
+	DelSeq    uint64     `json:"del_seq,omitempty"`
+	DelPath   []int      `json:"del_path,omitempty"`
+	DelSeenBy []int      `json:"del_seen_by,omitempty"`
+	DelRoutes []RouteObs `json:"del_routes,omitempty"`
+	Applied   bool       `json:"applied"`
+	Now       int64      `json:"now"` // virtual seconds since the start of the case, after the step
 }
 
 // Obs is the observation of one run.
@@ -573,7 +574,7 @@ func (nt *Net) apply(op Op) (applied bool, result int) {
 		w := nt.inflight[op.I]
 		if adv, err := protocol.DecodeRouteAdvertise(w.payload); err == nil {
 			a := nt.advObs(adv)
-			nt.del = &StepObs{DelFrom: w.from, DelTo: w.to, DelOrigin: a.Origin, DelSeq: a.Seq, DelPath: a.Path, DelSeenBy: a.SeenBy}
+			nt.del = &StepObs{DelFrom: w.from, DelTo: w.to, DelOrigin: a.Origin, DelSeq: a.Seq, DelPath: a.Path, DelSeenBy: a.SeenBy, DelRoutes: a.Routes}
 		} else {
 			nt.del = &StepObs{DelFrom: w.from, DelTo: w.to, DelOrigin: 998}
 		}
